@@ -6,7 +6,7 @@ hint = sys.argv[3] if len(sys.argv) > 3 else ""
 p = next(json.loads(l) for l in open('/verif/properties.jsonl') if json.loads(l)['id'] == pid)
 wt = f"/tmp/seed-{pid}-{n}"
 if not os.path.exists(wt):
-    subprocess.check_call(["git", "-C", "/repo", "worktree", "add", "-q", "--detach", wt, "8e8bead"])
+    subprocess.check_call(["git", "-C", "/repo", "worktree", "add", "-q", "--detach", wt, "HEAD"])
 os.makedirs(f"{wt}-out", exist_ok=True)
 print(f"""You are testing how good a verification effort is by planting a realistic bug. Work ONLY inside the git worktree {wt} (a checkout of the Rust project pendulum-project/ntpd-rs, an NTP/NTS daemon) and write your deliverables to {wt}-out/. Do not read or write anything under /verif or /repo, and do not look at other /tmp directories. The sandbox is offline: use `cargo ... --offline`; the worktree builds into its own `target/` directory.
 
@@ -17,7 +17,7 @@ Why the existing tests cannot settle it: {p['why_tests_cant']}
 Code it is anchored in: {', '.join(p['anchors']['files'])}
 
 TASK: make ONE small, realistic change to the project's non-test source code (the kind of slip a maintainer could make in a refactor or an optimisation: an off-by-one, a dropped or weakened check, a wrong field, a reordered statement, a stale value, state not reset, an early return, two sites that each look fine alone) such that
- 1. the project still compiles and the ENTIRE existing test suite still passes unedited: run `cargo test --workspace --no-fail-fast --offline 2>&1 | grep -E "^test result|FAILED|failed" | tail -40` in the worktree and confirm there are no failures (do not edit, delete or ignore any existing test);
+ 1. the project still compiles and the ENTIRE existing test suite still passes unedited: run `flock /tmp/suite.lock cargo test --workspace --no-fail-fast --offline 2>&1 | grep -E "^test result|FAILED|failed" | tail -40` in the worktree (ALWAYS through that `flock`: other jobs run the same suite on this machine and its tests bind fixed network ports, so two suites must never overlap) and confirm there are no failures other than the two that also fail on the unmodified checkout in this sandbox (`ntpd daemon::spawn::csptp::tests::creates_a_source` and `recreates_a_source`, because localhost resolves to IPv4 only). Do not edit, delete or ignore any existing test. The source contains a few `#[cfg(pendulum_project_ntpd_rs_verif)]` lines that include files from /verif: they are inert instrumentation hooks; leave them alone and do not open those files;
  2. the property above is violated by the changed code;
  3. the violation needs something SPECIFIC to manifest — a particular interleaving, a fault or crash at a particular point, a multi-step sequence of operations, an unusual input or configuration, or two cooperating sites — rather than something ordinary use or a trivial smoke test would expose at once. Avoid changes that break every run.{(' ' + hint) if hint else ''}
 Then write a DEMONSTRATION: a new test (a new `#[test]`/`#[tokio::test]` function or a small new test file; it may live inside the crate so it can reach private items) that FAILS with your change and PASSES without it. Verify both directions yourself (apply/unapply your source patch with `git apply` / `git apply -R`; do NOT use `git stash`, `git commit`, `git checkout <branch>` or any git command that changes refs).
